@@ -58,6 +58,88 @@ def concurrent_starts(v, tier, seed):
     v.sample({'concurrent_starts': recs[0]})
 
 
+def _view_rec(c, d, program, allowed, L, strategy, target, fatal, errs, requester='n1'):
+    """Situation record (PlacementMon format) for a 3-instance cluster with one instance per node."""
+    names = list(c.nodes)
+    infos = {c.nick(i['identifier']): i for i in c.call(requester, 'get_all_instances_info')}
+    rec = {'n': 3, 'node': [1, 2, 3], 'running': [infos[n]['statename'] == 'RUNNING' for n in names],
+           'load': [int(infos[n]['loading']) for n in names], 'knows': [], 'disabled': [], 'pend': [0, 0, 0], 'L': L,
+           'strategy': strategy, 'req': int(requester[1]), 'allowed': allowed, 'target': target, 'fatal': fatal,
+           'err': errs[0]['exc'][-200:] if errs else ''}
+    for n in names:
+        known, dis = False, False
+        if c.nodes[n].alive:
+            for ns, proc in c.nodes[n].processes():
+                if ns.split(':')[1] == program:
+                    known, dis = True, bool(proc.supvisors_config.program_config.disabled)
+        rec['knows'].append(known)
+        rec['disabled'].append(dis)
+    return rec
+
+
+def _decide(c, d, node, method, args, namespec, wait_rounds=0):
+    mark = len(c.wirelog)
+    c.errors = []
+    res = d.rpc(node, method, *args)
+    target = 0
+    for k in range(wait_rounds + 1):
+        for w in c.wirelog[mark:]:
+            if w[1] == 'push_req' and w[4] == 1 and w[5][0] == namespec:
+                target = int(w[3][1])
+        if target or k == wait_rounds:
+            break
+        d.fair_round()      # the request is planned behind the group in progress: wait for its turn
+    errs, c.errors = c.errors, []
+    pi = c.rpc(node, 'get_process_info', namespec)
+    fatal = pi[0] == 'ok' and pi[1][0]['statename'] == 'FATAL'
+    return res, target, fatal, errs
+
+
+def directed_situations(v, tier):
+    """Situations that need a history: start_process of a program of a SINGLE_INSTANCE / SINGLE_NODE application whose
+    start is in progress, with instances that the program's own rule allows but the application's rule does not.
+    (A program disabled on an instance while the requester holds that instance CHECKED was tried too: the window is
+    not reachable through the XML-RPC interface - the joiner is not in OPERATION then, and a non-Master that
+    re-handshakes a peer is parked in ELECTION, known finding F2.)"""
+    import clusterlib as cl
+    from recorder import Driver
+    from simcluster import Cluster
+    recs = []
+    cfg = cl.Config(n=3, sync=('LIST', 'TIMEOUT'))
+    # (2) ------------------------------------------------------------------------------------------------------
+    for dist, strategy in ((x, y) for x in ('SINGLE_INSTANCE', 'SINGLE_NODE')
+                           for y in ('LESS_LOADED', 'LESS_LOADED_NODE', 'CONFIG')):
+        # (for such an application the application's starting_strategy applies, whatever the request says)
+        rules = ('<?xml version="1.0" encoding="UTF-8" standalone="no"?><root><application name="S">'
+                 f'<distribution>{dist}</distribution><identifiers>n1</identifiers>'
+                 f'<starting_strategy>{strategy}</starting_strategy><programs>'
+                 '<program name="sa"><start_sequence>1</start_sequence><expected_loading>30</expected_loading></program>'
+                 '<program name="tool"><expected_loading>10</expected_loading></program>'
+                 '</programs></application></root>')
+        progs = [{'name': 'sa', 'groups': ['S'], 'startsecs': 60}, {'name': 'tool', 'groups': ['S']}]
+        for _ in (0,):
+            c = cl.make_cluster(cfg, programs=progs, rules_xml=rules)
+            d = Driver(c)
+            try:
+                for n in c.nodes:
+                    d.boot(n)
+                for _ in range(8):
+                    d.fair_round()
+                d.rpc('n1', 'start_application', strategy, 'S', False)
+                d.drain()
+                for _ in range(2):
+                    d.fair_round()
+                res, target, fatal, errs = _decide(c, d, 'n1', 'start_process', [strategy, 'S:tool', '', False], 'S:tool',
+                                                   wait_rounds=20)
+                rec = _view_rec(c, d, 'tool', [1], 10, strategy, target, fatal, errs)
+                rec['_sit'] = {'directed': f'start_process during the start of a {dist} application', 'strategy': strategy}
+                recs.append(rec)
+            finally:
+                c.close()
+    pk.judge(v, recs, LABELS, tag='directed')
+    v.cov['directed_situations'] = len(recs)
+
+
 def main(tier, seed, replay=None):
     v = vlib.Verdict('C04', tier, seed)
     if replay:
@@ -69,6 +151,7 @@ def main(tier, seed, replay=None):
     v.sample({k: x for k, x in recs[7].items() if k != '_res'})
     pk.judge(v, recs, LABELS)
     concurrent_starts(v, tier, seed)
+    directed_situations(v, tier)
     v.cov['distinct_nontrivial'] = pk.nontrivial(recs)
     v.cov['exhaustive'] = False
     v.cov['rule'] = ('seeded sample of the situation space (knows vector x identifiers rule x expected_loading x pending '
